@@ -137,7 +137,7 @@ def validate(ck, items, chunk=1500, diagnose=True):
         if inv_failed:
             info['_invariant'] = (inv_failed, '\n'.join(res.trace[-60:]))
         if rejected and diagnose and not inv_failed:
-            sub = [traces[i] for i in rejected[:200]]
+            sub = [traces[i] for i in rejected]
             cfg2 = cfg.replace('INVARIANT Accept\n', 'INVARIANT Progress\n')
             r2 = tlc.run('TraceAudit', cfg2, generated={'traces.json': json.dumps(sub)}, env={'VERIF_TRACES': 'traces.json'}, deque=True)
             best = {}
@@ -146,7 +146,7 @@ def validate(ck, items, chunk=1500, diagnose=True):
                     b = best.get(p['tid'])
                     if b is None or p['at'] > b[0]:
                         best[p['tid']] = (p['at'], p['pc'])
-            for j, i in enumerate(rejected[:200]):
+            for j, i in enumerate(rejected):
                 at, pc = best.get(j + 1, (0, '?'))
                 ev = traces[i]['ev']
                 info[i] = {'matched_events': at - 1, 'model_pc': pc, 'next_event': ev[at - 1] if at - 1 < len(ev) else None,
